@@ -12,7 +12,30 @@ variable {K : Type} [Field K] [LinearOrder K] [IsStrictOrderedRing K] [Transc K]
 /-- `β ≤ 0` or at most two coefficients: the post-filter changes nothing. -/
 theorem postfilterMcp_noop (fx : Fix) (alpha beta : K) (c : List K) (h : ¬ 0 < beta ∨ c.length ≤ 2) :
     postfilterMcp fx alpha beta c = c := by
-  sorry
+  unfold postfilterMcp
+  rw [if_neg]
+  rintro ⟨h1, h2⟩
+  rcases h with h | h
+  · exact h h1
+  · omega
+
+/-! ### the post-filter, entry by entry -/
+
+private theorem getD_map_range_zip {β : Type} (l : List K) (f : Nat × K → β) (k : Nat)
+    (hk : k < l.length) (d : β) (d' : K) :
+    (((List.range l.length).zip l).map f).getD k d = f (k, l.getD k d') := by
+  simp [List.getD_eq_getElem?_getD, hk]
+
+private theorem getD_of_length_le (l : List K) (k : Nat) (hk : l.length ≤ k) : l.getD k 0 = 0 := by
+  simp [List.getD_eq_getElem?_getD, hk]
+
+private theorem getD_set_ne (l : List K) (a : K) (k : Nat) (hk : k ≠ 0) :
+    (l.set 0 a).getD k 0 = l.getD k 0 := by
+  simp [List.getD_eq_getElem?_getD, Ne.symm hk]
+
+private theorem getD_set_zero (l : List K) (a : K) (hl : 0 < l.length) :
+    (l.set 0 a).getD 0 0 = a := by
+  simp [List.getD_eq_getElem?_getD, hl]
 
 /-- For `β > 0` and more than two coefficients: orders ≥ 2 are multiplied by `1+β`, order 1 is unchanged,
     order 0 is shifted by `½ ln(e₁/e₂) − β α² b₂` where `e₁, e₂` are the impulse-response energies
@@ -27,14 +50,111 @@ theorem postfilterMcp_coeffs (fx : Fix) (alpha beta : K) (c : List K) (hb : 0 < 
     c'.getD 1 0 = c.getD 1 0 ∧
     c'.getD 0 0 = c.getD 0 0 + Transc.ln (b2en fx alpha b / b2en fx alpha b') / ((2 : Nat) : K)
                   - beta * alpha * alpha * b.getD 2 0 := by
-  sorry
+  intro c' b b'
+  have hblen : b.length = c.length := mc2b_length alpha c
+  have hb'len : b'.length = c.length := by simp [b', hblen]
+  have hc' : c' = b2mc alpha (b'.set 0 (b'.getD 0 0 +
+      Transc.ln (b2en fx alpha b / b2en fx alpha b') / ((2 : Nat) : K))) := by
+    show postfilterMcp fx alpha beta c = _
+    unfold postfilterMcp
+    rw [if_pos ⟨hb, hl⟩]
+  generalize Transc.ln (b2en fx alpha b / b2en fx alpha b') / ((2 : Nat) : K) = Δ at hc' ⊢
+  have hb'get : ∀ k, b'.getD k 0 = if k = 1 then b.getD 1 0 - beta * alpha * b.getD 2 0
+      else if k ≥ 2 then b.getD k 0 * (1 + beta) else b.getD k 0 := by
+    intro k
+    by_cases hk : k < b.length
+    · exact getD_map_range_zip b _ k hk 0 0
+    · have h1 : b'.getD k 0 = 0 := getD_of_length_le _ _ (by omega)
+      have h2 : b.getD k 0 = 0 := getD_of_length_le _ _ (by omega)
+      rw [h1, h2, if_neg (by omega), if_pos (by omega), zero_mul]
+  have hc : ∀ k, k < c.length → c.getD k 0 = b.getD k 0 + alpha * b.getD (k + 1) 0 := by
+    intro k hk
+    have := b2mc_getD alpha b k (by omega)
+    rwa [b2mc_mc2b] at this
+  have hget : ∀ k, k < c.length → c'.getD k 0 =
+      (b'.set 0 (b'.getD 0 0 + Δ)).getD k 0 + alpha * b'.getD (k + 1) 0 := by
+    intro k hk
+    rw [hc', b2mc_getD alpha _ k (by rw [List.length_set]; omega), getD_set_ne _ _ (k + 1) (by omega)]
+  refine ⟨?_, ?_, ?_, ?_⟩
+  · rw [hc', b2mc_length, List.length_set, hb'len]
+  · intro k hk2 hk
+    rw [hget k hk, getD_set_ne _ _ k (by omega), hb'get, hb'get, hc k hk,
+      if_neg (by omega), if_pos hk2, if_neg (by omega), if_pos (by omega)]
+    ring
+  · rw [hget 1 (by omega), getD_set_ne _ _ 1 (by omega), hb'get, hb'get, hc 1 (by omega)]
+    simp only [if_true]
+    norm_num
+    ring
+  · rw [hget 0 (by omega), getD_set_zero _ _ (by omega), hb'get, hb'get, hc 0 (by omega)]
+    norm_num
+    ring
 
 /-- The pinned commit's `freqt` (input fed in ascending order) reverses the cepstrum at `α = 0`. -/
 theorem freqt_pinned_reverses : freqt false ([1, 2, 3] : List ℚ) 2 0 = [3, 2, 1] := by
-  sorry
+  norm_num [freqt, freqtStep, freqtStep.go, List.replicate]
 
 theorem freqt_fixed_identity : freqt true ([1, 2, 3] : List ℚ) 2 0 = [1, 2, 3] := by
-  sorry
+  norm_num [freqt, freqtStep, freqtStep.go, List.replicate]
+
+/-! ### volume -/
+
+/-- the per-sample step of `vocoderSynth`'s fold, with the volume a separate argument -/
+private def synthStep (lpf cinc : List K) (alpha vol : K)
+    (acc : List K × List K × FilterSt K × ExcSt K) (_ : Nat) : List K × List K × FilterSt K × ExcSt K :=
+  let (outRev, coef, filt, exc) := acc
+  let (x, exc) := excGet exc lpf
+  let (y, filt) := match filt with
+    | .mlsa st =>
+      let x := if !(isZeroS x) then x * Transc.exp (coef.getD 0 0) else x
+      let (y, st) := mlsaDf st x alpha coef
+      (y, FilterSt.mlsa st)
+    | .mglsa ds =>
+      let x := x * coef.getD 0 0
+      let (y, ds) := mglsaDf ds x alpha coef
+      (y, FilterSt.mglsa ds)
+  let coef' := if cinc.length = coef.length then (coef.zip cinc).map fun (c, d) => c + d else coef
+  ((y * vol) :: outRev, coef', filt, exc)
+
+private theorem vocoderSynth_eq (fx : Fix) (v : VocoderSt K) (lf0 : K) (spectrum lpf : List K) :
+    vocoderSynth fx v lf0 spectrum lpf =
+      (let p := periodOfLf0 v.rate lf0
+       let v := if v.isFirst then
+           { v with isFirst := false,
+                    coefficients := if v.stage = 0 then mc2b v.alpha spectrum
+                                    else lspCoefficients fx v.useLogGain v.stage v.gamma v.alpha spectrum }
+         else v
+       let cc : List K :=
+         if v.stage = 0 then mc2b v.alpha (postfilterMcp fx v.alpha v.beta spectrum)
+         else
+           let l := postfilterLsp fx v.useLogGain v.stage v.gamma v.beta spectrum
+           let l := checkLspStability l
+           lspCoefficients fx v.useLogGain v.stage v.gamma v.alpha l
+       let cinc := (cc.zip v.coefficients).map fun (a, b) => (a - b) / (v.fperiod : K)
+       let exc := excStart v.exc p v.fperiod
+       let r := (List.range v.fperiod).foldl (synthStep lpf cinc v.alpha v.volume)
+         ([], v.coefficients, v.filter, exc)
+       (r.1.reverse, { v with coefficients := cc, filter := r.2.2.1, exc := excEnd r.2.2.2 p })) := rfl
+
+private theorem synthStep_vol (lpf cinc : List K) (alpha g : K) (o coef : List K) (filt : FilterSt K)
+    (exc : ExcSt K) (i : Nat) :
+    synthStep lpf cinc alpha g (o.map (· * g), coef, filt, exc) i =
+      (((synthStep lpf cinc alpha 1 (o, coef, filt, exc) i).1.map (· * g)),
+        (synthStep lpf cinc alpha 1 (o, coef, filt, exc) i).2) := by
+  unfold synthStep
+  cases filt <;> simp
+
+private theorem synthStep_fold (lpf cinc : List K) (alpha g : K) (l : List Nat) :
+    ∀ (o coef : List K) (filt : FilterSt K) (exc : ExcSt K),
+    l.foldl (synthStep lpf cinc alpha g) (o.map (· * g), coef, filt, exc) =
+      (((l.foldl (synthStep lpf cinc alpha 1) (o, coef, filt, exc)).1.map (· * g)),
+        (l.foldl (synthStep lpf cinc alpha 1) (o, coef, filt, exc)).2) := by
+  induction l with
+  | nil => intros; rfl
+  | cons i l ih =>
+    intro o coef filt exc
+    rw [List.foldl_cons, List.foldl_cons, synthStep_vol]
+    obtain ⟨o', coef', filt', exc'⟩ := synthStep lpf cinc alpha 1 (o, coef, filt, exc) i
+    exact ih o' coef' filt' exc'
 
 /-- **Volume is a pure gain.** One frame with volume `g` is the frame at volume 1 scaled sample by
     sample, and the vocoder state evolves identically (only the stored volume differs). -/
@@ -42,11 +162,23 @@ theorem vocoderSynth_volume (fx : Fix) (v : VocoderSt K) (g : K) (lf0 : K) (sp l
     vocoderSynth fx { v with volume := g } lf0 sp lpf =
       (((vocoderSynth fx { v with volume := 1 } lf0 sp lpf).1.map fun y => y * g),
        { (vocoderSynth fx { v with volume := 1 } lf0 sp lpf).2 with volume := g }) := by
-  sorry
+  obtain ⟨stage, gamma, useLogGain, fperiod, rate, alpha, beta, volume, coefficients, filter, exc, isFirst⟩ := v
+  rw [vocoderSynth_eq, vocoderSynth_eq]
+  cases isFirst
+  · simp only [Bool.false_eq_true, if_false]
+    have h := fun cinc l coef filt exc => synthStep_fold lpf cinc alpha g l [] coef filt exc
+    simp only [List.map_nil] at h
+    rw [h]
+    simp only [List.map_reverse]
+  · simp only [if_true]
+    have h := fun cinc l coef filt exc => synthStep_fold lpf cinc alpha g l [] coef filt exc
+    simp only [List.map_nil] at h
+    rw [h]
+    simp only [List.map_reverse]
 
 /-- dB are additive: `setVolume (a+b)` multiplies the gains (so +6.02 dB doubles). -/
 theorem volume_db_additive (hexp : ∀ a b : K, Transc.exp (a + b) = Transc.exp a * Transc.exp b)
     (a b : K) : Transc.exp ((a + b) * Consts.db) = Transc.exp (a * Consts.db) * Transc.exp (b * Consts.db) := by
-  sorry
+  rw [add_mul, hexp]
 
 end Jb
